@@ -260,6 +260,14 @@ func replay(b behaviour, cfg runCfg, opt replayOpt) (f *finding, st replayStats,
 			case l.Op == "snap" || l.Op == "badrevert":
 				return &finding{true, "snapshot-mutates/" + ok + "@" + mode, fmt.Sprintf("%s mode: %s changed the state: %s", mode, l.Op, m.detail), k, rec(k, ex)}, st, nil
 			default:
+				// Did a REVERT leave something behind that only this later call brings to light (a counter,
+				// a cache)? Then a twin that never made the reverted calls shows what the model says.
+				if acting != nil && len(acting.eff) != len(acting.ops) {
+					if agrees, err := twinObserve(cfg, x, acting.eff, want); err == nil && agrees {
+						return &finding{true, "revert-inexact/" + ok + "/surfaced-by-" + l.Op + "@" + mode,
+							fmt.Sprintf("%s mode: after RevertToSnapshot the state is not the state at Snapshot time - the difference shows at the next %s: %s (a twin that made the same calls without the reverted ones agrees with the specification)", mode, l.Op, m.detail), k, rec(k, ex)}, st, nil
+					}
+				}
 				// the call itself does something else than the specification says: not a statement of C09
 				return &finding{false, "model/" + l.Op + "/" + ok, fmt.Sprintf("%s mode, %s: %s", mode, l, m.detail), k, rec(k, ex)}, st, nil
 			}
